@@ -23,7 +23,7 @@ pub fn def() -> CheckDef {
 fn meta(_ctx: &Ctx) -> Meta {
     Meta {
         level: "exploration",
-        rule: "(a) signature headers synthesised by the harness encoder around real header + payload bytes: the product of OpenPGP tag {absent, string array with 0..3 base64 items, malformed / empty base64, wrong data types} x RSA / DSA / legacy-PGP tags {absent, binary, wrong type} x digest tags {none, correct, wrong} x verifier scripts {all accept, reject at call 1..4, all reject}; a recording implementation of the public Verifying trait logs every call (hash + length of the data, signature bytes); success is judged against the log: >= 1 call, no rejected call, every call handed exactly header (or header+payload for the legacy tag) bytes with a signature taken from the package, all recorded digests matching. (b) packages built and signed by the library with RSA-4096, protected RSA-3072, Ed25519 and ECDSA-P256 keys: every single-bit flip of the main header and of (a bounded part of) the payload plus seeded multi-byte edits; for gzip / zstd / xz / bzip2 payloads in addition every bit of the first 24 and last 16 bytes of the compressed stream (member / frame / stream headers and trailers) and bytes appended after the payload (zeros, text, an empty second member); structurally consistent extensions of the signed main header (one more index entry with its data appended behind the signed content); run in worker processes with the real pgp verifier; a mutant that parses to a different value must not verify. distinct_nontrivial = distinct (shape, script) executions that returned Ok or had calls + distinct mutants that parsed to a changed value".into(),
+        rule: "(a) signature headers synthesised by the harness encoder around real header + payload bytes: the product of OpenPGP tag {absent, string array with 0..3 base64 items, malformed / empty base64, wrong data types} x RSA / DSA / legacy-PGP tags {absent, binary, wrong type} x digest tags {none, correct, wrong, a strict prefix of the true value, empty} x verifier scripts {all accept, reject at call 1..4, all reject}; a recording implementation of the public Verifying trait logs every call (hash + length of the data, signature bytes); success is judged against the log: >= 1 call, no rejected call, every call handed exactly header (or header+payload for the legacy tag) bytes with a signature taken from the package, all recorded digests matching. (b) packages built and signed by the library with RSA-4096, protected RSA-3072, Ed25519 and ECDSA-P256 keys: every single-bit flip of the main header and of (a bounded part of) the payload plus seeded multi-byte edits; for gzip / zstd / xz / bzip2 payloads in addition every bit of the first 24 and last 16 bytes of the compressed stream (member / frame / stream headers and trailers) and bytes appended after the payload (zeros, text, an empty second member); structurally consistent extensions of the signed main header (one more index entry with its data appended behind the signed content); run in worker processes with the real pgp verifier; a mutant that parses to a different value must not verify. distinct_nontrivial = distinct (shape, script) executions that returned Ok or had calls + distinct mutants that parsed to a changed value".into(),
         assumptions: vec!["pgp crate verifies correctly; signature blobs in part (a) are opaque to the recording verifier".into()],
         floor_distinct: 500,
     }
@@ -84,7 +84,7 @@ fn shapes() -> Vec<Shape> {
         for r in legacy(SIG_RSA) {
             for d in legacy(SIG_DSA) {
                 for p in legacy(SIG_PGP) {
-                    for dg in ["none", "sha256-ok", "sha256-wrong", "sha1+md5-ok", "md5-wrong", "payload-wrong"] {
+                    for dg in ["none", "sha256-ok", "sha256-wrong", "sha256-prefix-wrong", "sha256-empty-wrong", "sha1-prefix-wrong", "sha1+md5-ok", "md5-wrong", "payload-wrong"] {
                         v.push(Shape { openpgp: o.clone(), openpgp_kind: ok, rsa: r.clone(), dsa: d.clone(), pgp: p.clone(), digests: dg });
                     }
                 }
@@ -132,6 +132,10 @@ fn synth(base: &Base, sh: &Shape) -> Vec<u8> {
             w[10] = if w[10] == b'0' { b'1' } else { b'0' };
             items.push((tag::SIG_SHA256, Val::Str(w)));
         }
+        // a recorded digest that is only a prefix of the true one (down to nothing) is wrong as well
+        "sha256-prefix-wrong" => items.push((tag::SIG_SHA256, Val::str(&sha256[..40]))),
+        "sha256-empty-wrong" => items.push((tag::SIG_SHA256, Val::str(""))),
+        "sha1-prefix-wrong" => items.push((tag::SIG_SHA1, Val::str(&hex::encode(sha1::Sha1::digest(&base.hdr))[..39]))),
         "sha1+md5-ok" | "md5-wrong" => {
             items.push((tag::SIG_SHA1, Val::str(&hex::encode(sha1::Sha1::digest(&base.hdr)))));
             let mut m = md5::Md5::new();
